@@ -497,10 +497,55 @@ func ruleR01b(c *Ctx) {
 			}
 		}
 	}
+	// a helper of an owner: an unexported function of the package that only owners (or such helpers) call — inside
+	// tick only from the OP_SAVE clause. What it does to the balance is decided with its callers (R01f evaluates it
+	// as part of the owner's paths).
+	var ownerHelper func(fn *ssa.Function, depth int) (bool, string)
+	ownerHelper = func(fn *ssa.Function, depth int) (bool, string) {
+		if depth > 2 || fnPkgPath(origin(fn)) != pkgVM || token.IsExported(origName(fn)) || fn.Parent() != nil {
+			return false, ""
+		}
+		var callers []string
+		n := 0
+		for _, site := range c.CallersOf(fn) {
+			p := site.Parent()
+			if p == nil || (p.Synthetic != "" && !strings.HasPrefix(p.Synthetic, "instance of")) {
+				continue
+			}
+			if strings.HasSuffix(c.Fset.Position(site.Pos()).Filename, "_test.go") {
+				continue
+			}
+			n++
+			pn := origName(p)
+			if _, isOwner := owners[pn]; isOwner && fnPkgPath(origin(p)) == pkgVM && pn != "NewMachine" {
+				if pn == "tick" && (site.Pos() < saveLo || site.Pos() > saveHi) {
+					return false, ""
+				}
+				callers = append(callers, pn)
+				continue
+			}
+			if ok, _ := ownerHelper(p, depth+1); ok {
+				callers = append(callers, pn)
+				continue
+			}
+			return false, ""
+		}
+		if n == 0 {
+			return false, ""
+		}
+		sort.Strings(callers)
+		return true, strings.Join(dedupStrings(callers), ", ")
+	}
 	for _, fn := range fns {
 		name := origName(fn)
 		why, isOwner := owners[name]
 		isOwner = isOwner && fnPkgPath(fn) == pkgVM
+		if !isOwner {
+			if ok, by := ownerHelper(fn, 0); ok {
+				c.ok(rule, fnName(fn)+":writes-Balances", w[fn][0].Pos(), "helper called only by the owners "+by+": its effect on the balance is decided with them (R01f)")
+				continue
+			}
+		}
 		if isOwner && name == "tick" {
 			for _, ins := range w[fn] {
 				if ins.Pos().IsValid() && (ins.Pos() < saveLo || ins.Pos() > saveHi) {
@@ -1308,9 +1353,15 @@ func ruleR12a(c *Ctx) {
 					// to the write (`v, ok := m.Balances[a][k]` with ok true): the inner map is not nil
 					checked = innerEntryFound(c, fn, mu, outer, balF)
 				}
+				viaCallers := ""
+				if !checked && exceptions[name] == "" {
+					viaCallers = balanceEntryFoundByCallers(c, fn, outer, balF)
+				}
 				switch {
 				case checked:
 					c.ok(rule, key, mu.Pos(), "the per-account map comes from a comma-ok lookup and is written only on its ok edge")
+				case viaCallers != "":
+					c.ok(rule, key, mu.Pos(), "every caller ("+viaCallers+") reaches this helper only behind the ok edge of a comma-ok lookup of the same account's entry")
 				case exceptions[name] != "":
 					c.ok(rule, key, mu.Pos(), "frozen exception: "+exceptions[name])
 				default:
@@ -1352,6 +1403,106 @@ func innerEntryFound(c *Ctx, fn *ssa.Function, mu *ssa.MapUpdate, outer *ssa.Loo
 		}
 	}
 	return false
+}
+
+// balanceEntryFoundByCallers: the write sits in an unexported helper and indexes Balances with one of its parameters;
+// every call of the helper (in the package) is reached only through the ok edge of a comma-ok lookup
+// `m.Balances[a][k]` — possibly made inside another helper that the caller's path goes through — on the account the
+// call passes. Returns the callers' names, or "".
+func balanceEntryFoundByCallers(c *Ctx, fn *ssa.Function, outer *ssa.Lookup, balF *types.Var) string {
+	if token.IsExported(origName(fn)) || fn.Parent() != nil {
+		return ""
+	}
+	prm, ok := stripLoadOfParamCell(outer.Index).(*ssa.Parameter)
+	if !ok || prm.Parent() != fn {
+		return ""
+	}
+	idx := paramIndex(prm)
+	var names []string
+	n := 0
+	for _, site := range c.CallersOf(fn) {
+		caller := site.Parent()
+		if caller == nil || (caller.Synthetic != "" && !strings.HasPrefix(caller.Synthetic, "instance of")) {
+			continue
+		}
+		if strings.HasSuffix(c.Fset.Position(site.Pos()).Filename, "_test.go") {
+			continue
+		}
+		if idx < 0 || idx >= len(site.Common().Args) || fnPkgPath(origin(caller)) != pkgVM {
+			return ""
+		}
+		n++
+		want := descr(site.Common().Args[idx], 0)
+		okAll, seen := true, false
+		pr := &PathRule{
+			Inline: func(call ssa.CallInstruction) []*ssa.Function {
+				if call == site {
+					return nil
+				}
+				if g := staticCallee(call); g != nil && fnPkgPath(origin(g)) == pkgVM && !token.IsExported(origName(g)) && g.Signature.Recv() != nil && len(g.Blocks) > 0 {
+					return []*ssa.Function{g}
+				}
+				return nil
+			},
+			MaxDepth: 3,
+			Edge: func(pc *PathCtx, s uint64, from *ssa.BasicBlock, si int) (uint64, bool) {
+				for _, f := range pc.edgeFacts(from, si) {
+					ex, isE := f.X.(*ssa.Extract)
+					if !isE || ex.Index != 1 {
+						continue
+					}
+					lk, isL := ex.Tuple.(*ssa.Lookup)
+					if !isL || !lk.CommaOk {
+						continue
+					}
+					if b, isB := constBool(f.Y); !isB || b != f.Eq {
+						continue
+					}
+					// m.Balances[a][k] (inner entry found) or m.Balances[a] (per-account map found)
+					var in *ssa.Lookup
+					switch x := lk.X.(type) {
+					case *ssa.Lookup:
+						in = x
+					case *ssa.Extract:
+						in, _ = x.Tuple.(*ssa.Lookup)
+					case *ssa.UnOp:
+						if _, isBal := fieldRead(x, balF); isBal {
+							in = lk
+						}
+					}
+					if in == nil {
+						continue
+					}
+					if _, isBal := fieldRead(in.X, balF); !isBal {
+						continue
+					}
+					if descr(pc.Resolve(in.Index), 0) == want {
+						s |= 1
+					}
+				}
+				return s, true
+			},
+			Step: func(pc *PathCtx, s uint64, ins ssa.Instruction) uint64 {
+				if ins == site.(ssa.Instruction) && pc.parent == nil {
+					seen = true
+					if s&1 == 0 {
+						okAll = false
+					}
+				}
+				return s
+			},
+		}
+		c.RunPaths(caller, 0, pr)
+		if !okAll || !seen {
+			return ""
+		}
+		names = append(names, origName(caller))
+	}
+	if n == 0 {
+		return ""
+	}
+	sort.Strings(names)
+	return strings.Join(dedupStrings(names), ", ")
 }
 
 func guardedByExtractTrue(c *Ctx, fn *ssa.Function, target ssa.Instruction, lk *ssa.Lookup) bool {
